@@ -117,6 +117,20 @@ func (sc scenario) applyVar(dir string) error {
 	if sc.Var == "sentfs" {
 		return nil // arranged per run, see bench.fresh
 	}
+	if sc.Var == "dangling" {
+		// the message's name exists in the folder as a link to a file that is not there (an archive disk that is not
+		// mounted): no copy of the message is in the mailbox
+		for _, rel := range sc.targetPaths() {
+			p := filepath.Join(dir, rel)
+			if _, err := os.Lstat(p); err == nil {
+				continue
+			}
+			if err := os.Symlink(filepath.Join("..", storeDir, "not-mounted", filepath.Base(rel)), p); err != nil {
+				return err
+			}
+		}
+		return nil
+	}
 	for _, rel := range sc.targetPaths() {
 		p := filepath.Join(dir, rel)
 		if st, err := os.Lstat(p); err != nil || !st.Mode().IsRegular() {
@@ -254,19 +268,20 @@ func (sc scenario) buildPreRegular(dir string) error {
 // one scenario at work
 
 type bench struct {
-	o       *vrt.Obs
-	sc      scenario
-	base    string // scratch directory of this case
-	preDir  string
-	runDir  string
-	pre     map[string][]byte
-	ref     map[string][]byte // tree after the complete, undisturbed operation
-	rec     mboxkit.Trace     // the recording run
-	nViol   int
-	inconcl int
-	opFails bool   // the undisturbed operation ends with an error (see record)
-	nRecov  int    // recoveries checked so far
-	ext     string // Var "sentfs": this run's sent folder on the other file system
+	o         *vrt.Obs
+	sc        scenario
+	base      string // scratch directory of this case
+	preDir    string
+	runDir    string
+	pre       map[string][]byte
+	ref       map[string][]byte // tree after the complete, undisturbed operation
+	rec       mboxkit.Trace     // the recording run
+	nViol     int
+	inconcl   int
+	opFails   bool            // the undisturbed operation ends with an error (see record)
+	nRecov    int             // recoveries checked so far
+	preBroken map[string]bool // folders that do not load in the prepared mailbox
+	ext       string          // Var "sentfs": this run's sent folder on the other file system
 }
 
 func (b *bench) violate(key, point, format string, a ...any) {
@@ -292,6 +307,17 @@ func newBench(o *vrt.Obs, sc scenario) (*bench, error) {
 	var err error
 	if b.pre, err = mboxkit.ReadTree(b.preDir); err != nil {
 		return b, err
+	}
+	// which folders load at all before the operation (a mailbox with a dangling link in a folder does not list that folder)
+	b.preBroken = map[string]bool{}
+	ph := mailbox.NewDirHandler(b.preDir, false)
+	for _, f := range []struct {
+		name string
+		list func() ([]*fbb.Message, error)
+	}{{"in", ph.Inbox}, {"out", ph.Outbox}, {"sent", ph.Sent}, {"archive", ph.Archive}} {
+		if _, err := f.list(); err != nil {
+			b.preBroken[f.name] = true
+		}
 	}
 	return b, nil
 }
@@ -594,6 +620,11 @@ func (b *bench) recovery(point string) {
 		}{{"in", h.Inbox}, {"out", h.Outbox}, {"sent", h.Sent}, {"archive", h.Archive}} {
 			msgs, err := f.list()
 			if err != nil {
+				if b.preBroken[f.name] {
+					// the folder did not load before the operation either (its content was like that): nothing the crash did
+					o.Count("folders_that_did_not_load_before_the_operation_either", 1)
+					continue
+				}
 				b.violate("load-error:"+f.name, point, "%s/ no longer loads after the crash: %v", f.name, err)
 				continue
 			}
